@@ -261,7 +261,10 @@ pub fn run(a: &Args) {
             }
             let i = rng.below(acs.len() as u64) as usize;
             let (f, kind) = record(&mut rng, &mut acs[i]);
-            recs.push(json!({"frame": hexs(&f), "ts": ts, "serial": 1 + rng.below(3), "ac": acs[i].k, "kind": kind}));
+            // one record in ten carries a timestamp up to 3 s older than its predecessor's (several receivers, late
+            // delivery): "first" and "latest" record are positions in the history, not extremes of the timestamps
+            let ts_rec = if rng.chance(0.1) { (ts - *rng.pick(&[0.4f64, 1.1, 1.6, 3.0])).max(0.0) } else { ts };
+            recs.push(json!({"frame": hexs(&f), "ts": ts_rec, "serial": 1 + rng.below(3), "ac": acs[i].k, "kind": kind}));
         }
         let meta: Vec<Value> = acs.iter().map(|x| json!({"k": x.k, "icao24": format!("{:06x}", x.addr), "df": x.es_df, "surface": x.surface})).collect();
         let reference = json!([lat0, lon0]);
